@@ -10,6 +10,7 @@
    both versions in one table and was not used.)  Written by hand. *)
 From Coq Require Import String.
 From V Require Import Lib.Base Lib.Automata C16.SpecCardano.
+(* end of imports *)
 Local Open Scope string_scope.
 Local Open Scope N_scope.
 
